@@ -341,6 +341,9 @@ class Flatten2Reshape(RewriteRuleClassBase):
 
         # Try to update shape if input is known.
         if input_shape is not None:
+            if any(isinstance(dim, int) and dim == 0 for dim in input_shape):
+                # A 0 in the Reshape target means "copy the input dim", not "zero".
+                return check_result.fail("Input has a zero-size dimension.")
             if all(isinstance(dim, int) for dim in input_shape[:axis]):
                 self._new_shape[0] = np.prod(input_shape[:axis])
             if all(isinstance(dim, int) for dim in input_shape[axis:]):
